@@ -579,6 +579,122 @@ fn check_field_case(rep: &mut Report) {
     }
 }
 
+/// Only NAMES are limited to 40 characters. Long words inside string literals, comments and (quoted) DATA items are
+/// accepted and are nothing but text; a word of more than 40 characters in a name position is rejected there.
+fn check_long_words(rep: &mut Report) {
+    let mk = |n: usize| -> String { "abcdefghijklmnopqrstuvwxyz0123456789.".chars().cycle().take(n).collect() };
+    // (a) text positions: the program with the long word = the program with a short word, up to that text
+    let text_templates: Vec<&str> = vec![
+        "T$ = \"{W}\"\nPRINT T$; LEN(T$)\n",
+        "PRINT \"x {W} y\" ' {W} in a comment too\n",
+        "' {W}\nPRINT 1\n",
+        "PRINT 1 '{W}\nPRINT 2\n",
+        "DATA \"{W}\", 5\nREAD X$, Y\nPRINT X$; Y\n",
+        "IF 1 THEN PRINT \"{W}\" ELSE PRINT \"no\" ' {W}\n",
+        "TYPE T ' {W}\n  A AS INTEGER ' {W}\nEND TYPE\nDIM v AS T\nPRINT v.A\n",
+        "SELECT CASE 1 ' {W}\nCASE 1 ' {W}\nPRINT \"{W}\"\nEND SELECT\n",
+    ];
+    let short = "w9.w";
+    for tpl in &text_templates {
+        let base_text = tpl.replace("{W}", short);
+        let base = observe(&base_text, true);
+        for n in [40usize, 41, 42, 80, 300] {
+            let w = mk(n);
+            let text = tpl.replace("{W}", &w);
+            rep.case(Some(format!("L{}", text)));
+            rep.bump("long-word.text-position");
+            let got = observe(&text, true);
+            let unlong = |x: &str| x.replace(&w, short);
+            let mut expected = base.clone();
+            // LEN of the literal is the one legitimate difference
+            let got_n = Obs { parse: unlong(&got.parse), lint: unlong(&got.lint), run: unlong(&got.run).replace(&format!(" {} ", n), &format!(" {} ", short.len())) };
+            expected.run = expected.run.clone();
+            if got_n != expected || !got.parse.starts_with("ok") {
+                rep.fail(Failure {
+                    kind: Kind::ImplVsProperty,
+                    signature: "long-word:text".into(),
+                    input: format!("original {:?} transformed {:?}", base_text, text),
+                    implementation: shorten(&format!("{:?}", got_n), 400),
+                    expected: shorten(&format!("{:?}", expected), 400),
+                    note: "a long word inside a string literal, a comment or a quoted DATA item is text: accepted, same program otherwise".into(),
+                });
+            }
+        }
+    }
+    // (b) name positions: rejected with IdentifierTooLong exactly when the model says the identifier token is too long
+    let name_templates: Vec<&str> = vec![
+        "{W} = 1\n",
+        "{W}% = 1\n",
+        "PRINT {W}\n",
+        "PRINT 1 + {W}$\n",
+        "GOTO {W}\n{W}:\n",
+        "x = 1\n{W}:\n",
+        "SUB {W}\nEND SUB\n",
+        "FUNCTION {W}\nEND FUNCTION\n",
+        "DECLARE SUB {W} ()\n",
+        "TYPE {W}\n  A AS INTEGER\nEND TYPE\n",
+        "TYPE T\n  {W} AS INTEGER\nEND TYPE\n",
+        "DIM A AS {W}\n",
+        "DIM {W}\n",
+        "DIM {W}(1 TO 2)\n",
+        "CONST {W} = 1\n",
+        "FOR {W} = 1 TO 2\nNEXT\n",
+        "SUB S ({W})\nEND SUB\n",
+        "{W} 1, 2\n",
+        "x = {W}(1)\n",
+        "INPUT {W}\n",
+        "ON ERROR GOTO {W}\n",
+    ];
+    let mut texts: Vec<String> = vec![];
+    for tpl in &name_templates {
+        for n in [39usize, 40, 41, 42, 64] {
+            // names without dots where dots are not allowed: use letters and digits only
+            let w: String = "abcdefghijklmnopqrstuvwxyz0123456789".chars().cycle().take(n).collect();
+            texts.push(tpl.replace("{W}", &w));
+        }
+    }
+    let reqs: Vec<String> = texts.iter().map(|t| format!("(lex.longnames {})", sx::chars(t))).collect();
+    let answers = ask(&reqs);
+    rep.exhaustive_parts.push(format!(
+        "name limit: {} name positions x lengths 39, 40, 41, 42, 64 (real parser vs RbModel.Lex.nameTooLong); long words of 40..300 characters in {} text positions",
+        name_templates.len(),
+        text_templates.len()
+    ));
+    for (k, text) in texts.iter().enumerate() {
+        rep.case(Some(format!("N{}", text)));
+        rep.bump("long-word.name-position");
+        let real = match catch_unwind(|| rusty_parser::parse_main_str(text.clone())) {
+            Ok(Ok(_)) => "accepted".to_owned(),
+            Ok(Err(e)) => {
+                if format!("{:?}", e.element).contains("IdentifierTooLong") { "too-long".to_owned() } else { "accepted".to_owned() /* other error, not the limit */ }
+            }
+            Err(_) => "panic".to_owned(),
+        };
+        let model = if answers[k] == "()" { "accepted" } else { "too-long" };
+        if real != model {
+            rep.fail(Failure {
+                kind: Kind::ModelVsImpl,
+                signature: "model:nameTooLong".into(),
+                input: format!("{:?}", text),
+                implementation: real.clone(),
+                expected: format!("{} {}", model, answers[k]),
+                note: "RbModel.Lex.nameTooLong on the identifier tokens in name position".into(),
+            });
+        }
+        let spec = if text.split(|c: char| !(c.is_ascii_alphanumeric() || c == '.')).any(|w| w.len() > 40 && w.chars().next().map(|c| c.is_ascii_alphabetic()).unwrap_or(false)) { "too-long" } else { "accepted" };
+        if real != spec {
+            rep.fail(Failure {
+                kind: Kind::ImplVsProperty,
+                signature: "name-limit".into(),
+                input: format!("{:?}", text),
+                implementation: real,
+                expected: spec.into(),
+                note: "a name of more than 40 characters is rejected with IdentifierTooLong, one of 40 is not".into(),
+            });
+        }
+    }
+}
+
 /// `common_separator` is private; it is observed through the parser: `X = 1 <sep> Y = 2` has two
 /// statements iff the model's `commonSeparator` consumes `<sep>` completely.
 fn check_separator(rep: &mut Report) {
@@ -960,7 +1076,14 @@ fn apply(segs: &[Seg], tr: Tr, chosen: &[usize], rng: &mut Rng) -> Vec<Seg> {
                 };
             }
             Tr::Comment => {
-                let c = *rng.pick(&[" ' a Comment: PRINT \"x\"", "'", "\t' IF then", " 'don't"]);
+                let c = *rng.pick(&[
+                    " ' a Comment: PRINT \"x\"",
+                    "'",
+                    "\t' IF then",
+                    " 'don't",
+                    " ' abcdefghijklmnopqrstuvwxyzabcdefghijklmnopqrstuvwxyz0123456789 is a long word",
+                    "'Pneumonoultramicroscopicsilicovolcanoconiosis.and.then.some.more",
+                ]);
                 s.text = format!("{}{}", c, s.text);
             }
             Tr::TrailingBlank => {
@@ -1341,6 +1464,9 @@ const BUILT_IN: &[&str] = &[
     "PRINT \"a ' not a comment\" ' a comment\nPRINT \"b\" 'another\n",
     "PRINT 1 <> 2; 1 <= 2; 1 >= 2; 1 = 2\n",
     "x$ = \"keep  Two  blanks\"\nPRINT x$; LEN(x$)\n",
+    "T$ = \"abcdefghijklmnopqrstuvwxyzabcdefghijklmno\"\nPRINT T$ ' abcdefghijklmnopqrstuvwxyzabcdefghijklmnop\nPRINT LEN(t$)\n",
+    "' abcdefghijklmnopqrstuvwxyzabcdefghijklmnopqrstuvwxyz01234567890123456789\nDATA \"abcdefghijklmnopqrstuvwxyzabcdefghijklmno\", 2\nREAD a$, b\nPRINT a$; b\n",
+    "abcdefghijklmnopqrstuvwxyzabcdefghijklmno = 1\n",
     "PRINT \"unterminated\n",
     "IF x THEN\nPRINT 1\n",
     "PRINT 1 +\n",
@@ -1625,6 +1751,7 @@ fn main() {
     check_deftype(&mut rep);
     check_separator(&mut rep);
     check_field_case(&mut rep);
+    check_long_words(&mut rep);
     check_metamorphic(&mut rep, &mut rng);
     rep.finish();
 }
